@@ -222,7 +222,10 @@ def scan(f, pos):
             # string, we need to read more data.
             s = l_ + 1
             if s > len(data) - 8:
-                pos += l_
+                # (A period in the first byte here means fewer than 8 bytes
+                # follow it in the whole file: step over it, or we would
+                # read the same block forever.)
+                pos += l_ or 1
                 break
             tl = u64(data[s:s + 8])
             if tl < pos:
